@@ -146,6 +146,12 @@ func runCase(c Case) (nt bool, classes []string, err error) {
 			return res[:(len(res)+1)/2], injected
 		case "panic":
 			panic(fmt.Sprintf("boom-%d", k))
+		case "panic-error":
+			panic(fmt.Errorf("boom-%d", k))
+		case "panic-struct":
+			panic(struct{ What string }{fmt.Sprintf("boom-%d", k)})
+		case "panic-int":
+			panic(7000 + k)
 		case "short":
 			if len(res) > 0 {
 				return res[:len(res)-1], nil
@@ -319,9 +325,13 @@ func runCase(c Case) (nt bool, classes []string, err error) {
 			if r.err != injected {
 				return false, nil, fmt.Errorf("caller %d: got %q, want the injected error of invocation %d", i, r.err, ks[0])
 			}
-		case "panic":
-			if !strings.Contains(r.err.Error(), fmt.Sprintf("boom-%d", ks[0])) {
-				return false, nil, fmt.Errorf("caller %d: got %q, want the panic of invocation %d", i, r.err, ks[0])
+		case "panic", "panic-error", "panic-struct", "panic-int":
+			want := fmt.Sprintf("boom-%d", ks[0])
+			if inv.outcome == "panic-int" {
+				want = fmt.Sprint(7000 + ks[0])
+			}
+			if !strings.Contains(r.err.Error(), want) {
+				return false, nil, fmt.Errorf("caller %d: got %q, want the panic (%s) of invocation %d", i, r.err, want, ks[0])
 			}
 		case "short", "long":
 			if !strings.Contains(r.err.Error(), "incorrect number of results") {
@@ -357,7 +367,7 @@ func genCase(t *rapid.T) Case {
 		Limit:           rapid.SampledFrom([]int{0, 0, 1, 2, 5}).Draw(t, "limit"),
 	}
 	c.MaxSize = rapid.SampledFrom([]int{0, 0, 1, 2, 3, 5, n}).Draw(t, "maxsize")
-	c.Plan = rapid.SliceOfN(rapid.SampledFrom([]string{"ok", "ok", "ok", "error", "error-full", "error-partial", "panic", "short", "long", "slow"}), 0, 6).Draw(t, "plan")
+	c.Plan = rapid.SliceOfN(rapid.SampledFrom([]string{"ok", "ok", "ok", "error", "error-full", "error-partial", "panic", "panic-error", "panic-struct", "panic-int", "short", "long", "slow"}), 0, 6).Draw(t, "plan")
 	burst := rapid.Bool().Draw(t, "burst")
 	cancels := rapid.IntRange(0, 3).Draw(t, "cancelrate")
 	for i := 0; i < n; i++ {
